@@ -1,0 +1,79 @@
+//go:build verif
+
+// Contracts (machine-checked specifications) for package tls, read by the
+// verifier under /verif. This file contains comments only; it is compiled
+// only with -tags verif and adds no code.
+
+package tls
+
+// ---------------------------------------------------------------- common.go (C20, C14)
+//
+// payloadOf(p, e): what recombination takes from entry e under prefix p: the
+// text after the first hyphen that follows the prefix; nothing for entries
+// without the prefix or without a hyphen.
+// combine(row, off, j, p): recombination of the first j entries.
+// cnt(row, off, j, p): number of entries with the prefix among the first j.
+
+//@ spec func payloadOf(String, String) String
+//@ spec func combine(StrRow, Int, Int, String) String
+//@ spec func cnt(StrRow, Int, Int, String) Int
+//@ axiom[payloadOf] forall p String, e String :: payloadOf(p, e) ==
+//@   | ite(hasPrefix(e, p) && indexOf(substr(e, len(p), len(e)), "-") >= 0,
+//@   |     substr(e, len(p) + indexOf(substr(e, len(p), len(e)), "-") + 1, len(e)), "")
+//@ axiom[combine0] forall r StrRow, o Int, p String :: combine(r, o, 0, p) == ""
+//@ axiom[combineS] forall r StrRow, o Int, j Int, p String :: j >= 1 ==>
+//@   | combine(r, o, j, p) == combine(r, o, j-1, p) + payloadOf(p, at(r, o+j-1))
+//@ axiom[cnt0] forall r StrRow, o Int, p String :: cnt(r, o, 0, p) == 0
+//@ axiom[cntS] forall r StrRow, o Int, j Int, p String :: j >= 1 ==>
+//@   | cnt(r, o, j, p) == cnt(r, o, j-1, p) + ite(hasPrefix(at(r, o+j-1), p), 1, 0)
+
+//@ func tls.CombineFromNextProtos
+//@   nopanic[C14,C20]
+//@   ensures[C20 args] (len(prefix) == 0 || len(chunks) == 0) <==> err != nil
+//@   ensures[C20 fold] err == nil ==> ret == combine(row(chunks), off(chunks), len(chunks), prefix)
+//@   loop 0 invariant[bounds] 0 <= rangeindex + 1 && rangeindex + 1 <= len(chunks)
+//@   loop 0 invariant[fold] ret == combine(row(chunks), off(chunks), rangeindex + 1, prefix)
+
+//@ func tls.BreakIntoNextProtos
+//@   let m = maxNextProtoSizeWithBuffer - len(prefix)
+//@   let reqPrefix = prefix == "v1-nodee-fetch-node-creds-" || prefix == "v1-nodee-authenticate-node-"
+//@   requires[prefixfits] len(prefix) < maxNextProtoSizeWithBuffer
+//@   nopanic[C14,C20]
+//@   ensures[C20 args] (len(prefix) == 0 || len(value) == 0) <==> err != nil
+//@   ensures[C20 count] err == nil && reqPrefix ==> len(ret) >= 1 && (len(ret) - 1) * m < len(value) && len(ret) * m >= len(value)
+//@   ensures[C20 chunks] err == nil && reqPrefix && len(value) <= 65535 ==> forall k int :: 0 <= k && k < len(ret) ==>
+//@   |   hasPrefix(ret[k], prefix) && len(ret[k]) <= 255 &&
+//@   |   payloadOf(prefix, ret[k]) == value[k*m : min((k+1)*m, len(value))]
+//@   loop 0 invariant[idx] fresh(ret) && 0 <= count && i == count * m && len(ret) == count && (count == 0 || (count-1) * m < len(value))
+//@   loop 0 invariant[chunks] reqPrefix && len(value) <= 65535 ==> forall k int :: 0 <= k && k < count ==>
+//@   |   hasPrefix(ret[k], prefix) && len(ret[k]) <= 255 &&
+//@   |   payloadOf(prefix, ret[k]) == value[k*m : min((k+1)*m, len(value))]
+
+// ---------------------------------------------------------------- C20 round trip (lemmas)
+//
+// chunksInOrder(mixed): every entry with the prefix carries, as payload, the
+// chunk of value whose ordinal is the number of prefixed entries before it,
+// and there are enough prefixed entries to cover value.
+
+//@ func tls.lemmaBreakShape
+//@   let m = maxNextProtoSizeWithBuffer - len(prefix)
+//@   let reqPrefix = prefix == "v1-nodee-fetch-node-creds-" || prefix == "v1-nodee-authenticate-node-"
+//@   requires reqPrefix && 1 <= len(value) && len(value) <= 65535
+//@   ensures[C20 inorder] forall j int :: 0 <= j && j < len(parts) && hasPrefix(parts[j], prefix) ==>
+//@   |   payloadOf(prefix, parts[j]) == value[cnt(row(parts), off(parts), j, prefix)*m : min((cnt(row(parts), off(parts), j, prefix)+1)*m, len(value))]
+//@   ensures[C20 enough] cnt(row(parts), off(parts), len(parts), prefix) * m >= len(value)
+//@   ensures[C20 bound] forall j int :: 0 <= j && j < len(parts) ==> hasPrefix(parts[j], prefix) && len(parts[j]) <= 255
+//@   loop 0 invariant[cnt] 0 <= j && j <= len(parts) && cnt(row(parts), off(parts), j, prefix) == j
+//@   |   && (forall k int :: 0 <= k && k < j ==> cnt(row(parts), off(parts), k, prefix) == k)
+
+//@ func tls.lemmaChunkRoundTrip
+//@   let m = maxNextProtoSizeWithBuffer - len(prefix)
+//@   let reqPrefix = prefix == "v1-nodee-fetch-node-creds-" || prefix == "v1-nodee-authenticate-node-"
+//@   requires reqPrefix && 1 <= len(value) && len(value) <= 65535 && len(mixed) >= 1
+//@   requires[inorder] forall j int :: 0 <= j && j < len(mixed) && hasPrefix(mixed[j], prefix) ==>
+//@   |   payloadOf(prefix, mixed[j]) == value[cnt(row(mixed), off(mixed), j, prefix)*m : min((cnt(row(mixed), off(mixed), j, prefix)+1)*m, len(value))]
+//@   requires[enough] cnt(row(mixed), off(mixed), len(mixed), prefix) * m >= len(value)
+//@   split prefix == "v1-nodee-fetch-node-creds-"
+//@   ensures[C20 roundtrip] out == value
+//@   loop 0 invariant[fold] 0 <= j && j <= len(mixed) && 0 <= cnt(row(mixed), off(mixed), j, prefix)
+//@   |   && combine(row(mixed), off(mixed), j, prefix) == value[0 : min(cnt(row(mixed), off(mixed), j, prefix)*m, len(value))]
